@@ -1119,9 +1119,12 @@ def random_sequence(rng, length):
         elif k < 0.42:
             op = ["push", rng.choice([1, 1, 2, 3, 0])]
         elif k < 0.54:
-            if depth == 0:
+            if rng.random() < 0.1:
+                op = ["pop", 0]
+            elif depth == 0:
                 continue
-            op = ["pop", rng.randint(1 if rng.random() < 0.95 else 0, min(depth, 3))]
+            else:
+                op = ["pop", rng.randint(1, min(depth, 3))]
         elif k < 0.64:
             op = ["solve"]
         elif k < 0.72:
@@ -1173,6 +1176,10 @@ SCENARIOS = [
     [["add", "Fa"], ["is_sat", "Fk"], ["solve"], ["is_sat", "Fna"]],
     [["is_sat", "Fab"], ["model"], ["is_valid", "Fab"], ["is_unsat", "Fna"], ["getv", "a"], ["solve"], ["model"]],
     [["add", "Fa"], ["is_sat", "Fnb"], ["is_valid", "Fab"], ["getv", "a"], ["push", 0], ["pop", 0], ["solve"], ["model"]],
+    # push(0) / pop(0) are legal and change nothing
+    [["add", "Fa"], ["push", 0], ["pop", 0], ["add", "Fab"], ["solve"], ["model"]],
+    [["push", 1], ["add", "Fu"], ["pop", 0], ["add", "Fab"], ["is_sat", "Fa"], ["pop", 0], ["add", "Fab"], ["pop", 1],
+     ["push", 0], ["add", "Fu"], ["solve"]],
     [["push", 1], ["add", "Fu"], ["is_sat", "Fp"], ["model"], ["pop", 1], ["is_sat", "Fnu"], ["push", 2], ["add", "Fp"],
      ["pop", 2], ["solve"]],
 ]
@@ -1323,12 +1330,14 @@ def run(ctx):
 def _run(ctx):
     pool()
     quick = ctx.tier == "quick"
-    t_end = ctx.t0 + (80 if quick else 840)
+    # the budget counts from the start of the check, but building / auditing the proofs may have had to wait for other
+    # users of the Lean tree: K and S always get a minimum of their own
+    t_end = max(ctx.t0 + (80 if quick else 840), time.time() + (40 if quick else 300))
     # second tie first (cheap)
     strict_tie(ctx, 300 if quick else 3000)
     static_oracles(ctx)
     # 1. witnesses
-    run_cases(ctx, SCENARIOS, t_end)
+    run_cases(ctx, SCENARIOS, time.time() + 120)       # the witnesses always run, all of them
     # 2. exhaustive enumeration (every prefix of a maximal sequence is checked while it runs)
     plan = [(True, 3), (False, 4)] if quick else [(True, 4), (False, 5), (False, 6)]
     exhaustive = []
